@@ -290,7 +290,16 @@ where
     }
 }
 
-pub fn attack<B, H, E>(case: &Case, kind: &str) -> Value
+/// Column pair (a, b) of a `cols`-column table for variant v: (first, last), (last-1, last), (0, 1), ...
+fn pair(cols: usize, v: usize) -> (usize, usize) {
+    match v % 3 {
+        0 => (0, cols - 1),
+        1 => (cols - 2, cols - 1),
+        _ => (0, 1),
+    }
+}
+
+pub fn attack<B, H, E>(case: &Case, kind: &str, variant: usize) -> Value
 where
     B: StarkField + ExtensibleField<2> + ExtensibleField<3> + 'static,
     H: ElementHasher<BaseField = B> + Sync,
@@ -333,7 +342,7 @@ where
             if main_w < 2 {
                 return skip("needs >= 2 main columns");
             }
-            let (a, b) = (0, main_w - 1);
+            let (a, b) = pair(main_w, variant);
             forged.trace_queries[0] =
                 deep_neutral::<E>(&forged.trace_queries[0], main_w, row, a, b, ch.deep[a], ch.deep[b]);
         },
@@ -341,7 +350,7 @@ where
             if aux_w < 2 {
                 return skip("needs >= 2 auxiliary columns");
             }
-            let (a, b) = (0, aux_w - 1);
+            let (a, b) = pair(aux_w, variant);
             forged.trace_queries[1] = deep_neutral::<E>(
                 &forged.trace_queries[1], aux_w, row, a, b, ch.deep[main_w + a], ch.deep[main_w + b]);
         },
@@ -349,7 +358,7 @@ where
             if comp_cols < 2 {
                 return skip("needs >= 2 composition columns");
             }
-            let (a, b) = (0, comp_cols - 1);
+            let (a, b) = pair(comp_cols, variant);
             forged.constraint_queries = deep_neutral::<E>(
                 &forged.constraint_queries, comp_cols, row, a, b,
                 ch.deep[main_w + aux_w + a], ch.deep[main_w + aux_w + b]);
